@@ -4,8 +4,9 @@
   `Model/Parse.lean` on top of the proved lexer model.
 
   PROVED here, for every source text, every instantiation of the lexer's
-  Unicode predicates and every literal-decoder oracle whose error locations are
-  spans of the source (`LitOk`):
+  Unicode predicates and every literal-decoder oracle whose ESCAPE-error ranges
+  lie inside the text the escaper was given, on character boundaries (`LitOk`;
+  nothing is assumed about any other literal):
 
    * `parse_total`          with fuel `32 · len + 1` or more (`len` = bytes of the
                             source) the parser model returns a tree or a
@@ -46,8 +47,12 @@
   `simple_literal` takes of the token text first (`&s[1..s.len() - 1]`,
   `&s[2..]`) ARE in the model and proved not to panic (`literal_slices_ok`, from
   the shape of the token text the lexer model guarantees); so are the slices of `unescape_f_string_part` (`fstring_part_slices_ok`, for every
-  text). What stays in the oracle is the decoding proper (std `parse`,
-  `rustc-literal-escaper`) and the location arithmetic of its errors.
+  text). The location arithmetic of decoding errors is in the model
+  too (`span.start + 1 + range.start` for a string literal, `token.start + 1 ..
+  token.end` for a character literal, `span.start + piece_start + range.start`
+  for a piece of an f-string text, the token's span for every other literal).
+  What stays in the oracle is the decoding proper: which literals std `parse` /
+  `rustc-literal-escaper` accept, and the escaper's range relative to its input.
 -/
 import RotoV.Lemmas.ParseTop
 
@@ -135,7 +140,21 @@ def exCtx (src : List Char) : Ctx :=
   ⟨src, ⟨fun c => c.isAlpha, fun c => c.isAlphanum, fun c => c == ' '⟩, fun _ _ _ => none, []⟩
 
 /-- non-vacuity: the hypotheses are satisfiable … -/
-example (src : List Char) : LitOk (exCtx src) := by intro f a b k sp h; cases h
+example (src : List Char) : LitOk (exCtx src) := by intro f s e k j a b h; cases h
+
+/-- … also by an oracle that reports an escape error: `"\\q"` (bytes 0..4), the escaper's
+range `0..2` inside the content `\\q`; the parser cites bytes 1..3 -/
+example : LitOk ⟨['"', '\\', 'q', '"'], ⟨fun _ => false, fun _ => false, fun _ => false⟩,
+    fun f s e => if f = false ∧ s = 0 ∧ e = 4 then some (.custom, 0, 0, 2) else none, []⟩ := by
+  intro f s e k j a b h
+  simp only at h
+  split at h
+  · rename_i hc
+    obtain ⟨rfl, rfl, rfl⟩ := hc
+    cases h
+    refine ⟨(by intro hf; cases hf), fun _ _ => ?_⟩
+    refine ⟨by decide, ⟨[], ['\\', 'q'], by decide, by decide⟩, ⟨['\\', 'q'], [], by decide, by decide⟩⟩
+  · cases h
 
 /-- … the empty source parses to the empty tree … -/
 example : parse (exCtx []) = .tree (.n "Tree" []) [] := by rfl
